@@ -1,6 +1,7 @@
 package main
 
 import (
+	"encoding/json"
 	"fmt"
 	"strings"
 
@@ -360,8 +361,12 @@ func (x *gg) genAttrType(depth int, self string, names map[string]bool) *spec.Ty
 
 // genObject draws an object whose attributes all carry field numbers.
 func (x *gg) genObject(depth int, self string, maxAttrs int) *spec.Type {
+	return x.genObjectWith(depth, self, maxAttrs, map[string]bool{}, map[int]bool{})
+}
+
+// genObjectWith is genObject with attribute names and field numbers that are already taken.
+func (x *gg) genObjectWith(depth int, self string, maxAttrs int, names map[string]bool, tags map[int]bool) *spec.Type {
 	o := &spec.Type{Kind: spec.Object}
-	names, tags := map[string]bool{}, map[int]bool{}
 	n := x.r.Range(1, maxAttrs)
 	for i := 0; i < n; i++ {
 		a := &spec.Attr{Name: x.pickName(names)}
@@ -452,6 +457,99 @@ func (x *gg) genTypes() {
 			ut.Def = x.genObject(0, name, 5)
 		}
 	}
+	if x.chance(2, 5) {
+		x.genDerived()
+	}
+}
+
+// genDerived adds a type that inherits from an earlier object type. Extend(base): every base attribute is merged
+// in with the field number the base gave it. Reference(base): attributes spelled Field(n, "name") take their type
+// from the base attribute of that name and are RENUMBERED by the derived type (the numbers of the base are reused
+// for other fields where possible), so the number the design chooses is the derived one.
+func (x *gg) genDerived() {
+	var bases []*spec.UserType
+	for _, t := range x.s.Types {
+		if t.Kind == "type" && t.Def != nil && t.Def.Kind == spec.Object && t.Extend == "" && t.Reference == "" && len(t.Def.Attrs) > 0 {
+			ok := true
+			for _, a := range t.Def.Attrs {
+				if a.Type.Kind == spec.Union || a.Type.Kind == spec.Object {
+					ok = false // members of a OneOf / inline objects carry numbers of their own: keep the base simple
+				}
+			}
+			if ok {
+				bases = append(bases, t)
+			}
+		}
+	}
+	if len(bases) == 0 {
+		return
+	}
+	b := bases[x.r.Intn(len(bases))]
+	d := &spec.UserType{Name: b.Name + "Derived", Kind: "type"}
+	names, tags := map[string]bool{}, map[int]bool{}
+	for _, a := range b.Def.Attrs {
+		names[spec.Norm(a.Name)] = true
+	}
+	clone := func(a *spec.Attr) *spec.Attr {
+		bb, _ := json.Marshal(a)
+		var c spec.Attr
+		_ = json.Unmarshal(bb, &c)
+		return &c
+	}
+	var inherited []*spec.Attr
+	if x.chance(1, 3) {
+		d.Extend = b.Name
+		for _, a := range b.Def.Attrs {
+			c := clone(a)
+			c.Inherit, c.InhReq = "extend", b.Def.IsRequired(a.Name)
+			tags[c.Tag] = true
+			inherited = append(inherited, c)
+		}
+		x.s.AddFeature("extend")
+	} else {
+		d.Reference = b.Name
+		// renumber: rotate the base numbers among the referenced attributes, or draw fresh ones
+		var picked []*spec.Attr
+		for i, a := range b.Def.Attrs {
+			if x.chance(3, 4) || (len(picked) == 0 && i == len(b.Def.Attrs)-1) {
+				picked = append(picked, a)
+			}
+		}
+		for i, a := range picked {
+			c := clone(a)
+			c.Inherit, c.InhReq = "reference", b.Def.IsRequired(a.Name)
+			if len(picked) > 1 && x.chance(2, 3) {
+				c.Tag = picked[(i+1)%len(picked)].Tag // another base attribute's number
+			} else {
+				c.Tag = 0
+			}
+			inherited = append(inherited, c)
+		}
+		for _, c := range inherited {
+			if c.Tag != 0 {
+				if tags[c.Tag] {
+					c.Tag = 0
+				} else {
+					tags[c.Tag] = true
+				}
+			}
+		}
+		for _, c := range inherited {
+			if c.Tag == 0 {
+				c.Tag = x.pickTag(tags)
+			}
+		}
+		x.s.AddFeature("reference", "reference-renumbered")
+	}
+	x.s.Types = append(x.s.Types, d)
+	def := x.genObjectWith(1, d.Name, 2, names, tags)
+	for _, c := range inherited {
+		def.Attrs = append(def.Attrs, c)
+		if c.InhReq {
+			def.Required = append(def.Required, c.Name)
+		}
+	}
+	d.Def = def
 }
 
 // metaCandidates lists the attributes of an object that can travel as gRPC metadata (strings mostly).
